@@ -31,6 +31,9 @@ class Facts:
         used_as_field = {fd['ty'].replace("'_", '') for a in r['adts'] if a.get('kind') == 'Struct' for v in a['variants'] for fd in v['fields'] if fd.get('vis') == 'priv'}
         self.transparent = {a['path'] for a in r['adts'] if a.get('kind') == 'Struct' and a.get('vis') == 'priv' and not a.get('generic')
                             and not a.get('repr_c') and not a.get('repr_packed') and a['path'] in used_as_field}
+        # crate-private newtypes (`struct NameSeg([u8; 4])`): a symbolic value of one is named like its only field
+        self.newtypes = {a['path'] for a in r['adts'] if a.get('kind') == 'Struct' and a.get('vis') == 'priv' and not a.get('generic')
+                         and len(a['variants']) == 1 and len(a['variants'][0]['fields']) == 1 and a['variants'][0]['fields'][0]['name'] == '0'}
         self.bodies = {}
         for b in r['bodies']:
             self.bodies[b['def']] = b
